@@ -22,7 +22,7 @@ BUDGET = {
 RULE = (
     "each run instantiates one random program twice (world and twin). World: the real backward()/mtl_backward() "
     "with Constant(w) (w incl. negative and zero), Sum() or Mean(), a random chunk size, input subset/order and "
-    "S1 schedule. Twin: torch.autograd.backward(tensors, grad_tensors=w split per tensor, inputs=same) -- for "
+    "S1 schedule; the Sum/Mean instance has often been used before on matrices with other row counts. Twin: torch.autograd.backward(tensors, grad_tensors=w split per tensor, inputs=same) -- for "
     "mtl_backward: loss_i.backward(inputs=task_params_i) per task and the two-stage through-the-features "
     "pull-back for the shared parameters (plus the one-stage form when no shared leaf bypasses the features). "
     "Every leaf's .grad must agree (requested-but-unreachable inputs: zeros == None). Non-trivial: >=2 rows and "
@@ -58,7 +58,13 @@ def generate(rng, tier, index):
             return None
         spec, roles, g = r
         call = C02.gen_mtl_call(rng, spec, roles, dtype, linear_only=True)
-    return {"spec": spec, "roles": roles, "call": call, "sched": gen_sched(rng, spec), "twin_sched": gen_sched(rng, spec), "pre_grads": gen_pre_grads(rng, spec)}
+    # S3: the user's aggregator object has usually been used before (earlier iterations, other batches):
+    # earlier direct uses of the SAME instance on matrices with other row counts (Sum/Mean only: Constant
+    # is bound to its row count)
+    agg_history = []
+    if call["agg"]["kind"] in ("Sum", "Mean") and rng.random() < 0.6:
+        agg_history = [[rng.randint(1, 9), rng.randint(1, 5)] for _ in range(rng.choice([1, 2, 3]))]
+    return {"spec": spec, "roles": roles, "call": call, "sched": gen_sched(rng, spec), "twin_sched": gen_sched(rng, spec), "pre_grads": gen_pre_grads(rng, spec), "agg_history": agg_history}
 
 
 def _weights_split(world, names, w):
@@ -82,7 +88,13 @@ def execute(scn):
     apply_pre_grads(world, scn.get("pre_grads", {}))
     apply_pre_grads(twin, scn.get("pre_grads", {}))
 
-    out, _ = run_call(world, call)
+    from ..aggs import make_agg
+
+    agg = make_agg(call["agg"], world.dtype)
+    for mm, nn in scn.get("agg_history", []):
+        agg(torch.ones((mm, nn), dtype=world.dtype) * 0.5)
+        stats["reach.aggregator_instance_used_before_with_other_row_count"] = 1
+    out, _ = run_call(world, call, agg=agg)
     stats["api_calls"] = 1
     stats["sweeps"] = count_sweeps(world.log.events)
     events.append(["world", out["ok"], out["exc"]])
@@ -188,11 +200,16 @@ def shrink(scn):
         s = copy.deepcopy(scn)
         s["pre_grads"] = {}
         yield s
+    if scn.get("agg_history"):
+        for i in range(len(scn["agg_history"])):
+            s = copy.deepcopy(scn)
+            del s["agg_history"][i]
+            yield s
     if call.get("chunk") is not None:
         s = copy.deepcopy(scn)
         s["call"]["chunk"] = None
         yield s
-    if call["agg"]["kind"] != "Sum":
+    if call["agg"]["kind"] != "Sum" and not scn.get("agg_history"):
         s = copy.deepcopy(scn)
         s["call"]["agg"] = {"kind": "Sum"}
         yield s
